@@ -293,6 +293,9 @@ func (l *Linter) lintInfixExpression(exp *ast.InfixExpression, ctx *context.Cont
 			l.Error(InvalidTypeExpression(exp.GetMeta(), left, types.StringType, types.IPType, types.AclType).Match(OPERATOR_CONDITIONAL))
 		} else if !expectType(right, types.StringType, types.AclType, types.RegexType) {
 			l.Error(InvalidTypeExpression(exp.GetMeta(), right, types.StringType, types.RegexType).Match(OPERATOR_CONDITIONAL))
+		} else if left == types.IPType && right != types.AclType {
+			// An IP can only be matched against an ACL (a pattern match needs a STRING on the left)
+			l.Error(InvalidTypeExpression(exp.GetMeta(), right, types.AclType).Match(OPERATOR_CONDITIONAL))
 		}
 		if expectType(right, types.StringType) && !isLiteralExpression(exp.Right) {
 			l.Error(&LintError{
